@@ -489,6 +489,29 @@ def predicate(story, steps):
                         if any(e[0] == "S" and e[1] == oid for e in steps[j][0]):
                             return ("C16/connect-timeout-callback", f"connect({a:#x}) timed out at step {idx}, yet its state callback ran at step {j}")
                     break
+    # notify data reaches exactly the notify subscriptions for its address and handle that are in force (started successfully, not yet
+    # stopped / removed) - whatever became of other subscriptions for the same characteristic
+    for idx, st in enumerate(story):
+        if st[0] != "feed" or idx >= len(steps):
+            continue
+        for m in st[1]:
+            if m[0] != "nd":
+                continue
+            want, may = set(), set()
+            for oid, (sidx, op) in started.items():
+                if op[0] != "notify" or op[1] != m[1] or op[2] != m[2] or sidx >= idx:
+                    continue
+                got = done_at.get(oid)
+                ended = got is not None and got[0] < idx and got[1] != "returned"
+                released = got is not None and any(s2[0] in ("unsub", "stop") and s2[1] == oid for s2 in story[got[0]:idx])
+                if not ended and not released:
+                    may.add(oid)         # (data may already reach a subscription whose start has not been confirmed yet)
+                    if got is not None and got[1] == "returned" and got[0] < idx:
+                        want.add(oid)
+            seen = {e[1] for e in steps[idx][0] if e[0] == "N" and e[3] == m[3]}
+            if not (want <= seen <= may):
+                return ("C16/notify-data", f"notify data for ({m[1]:#x}, handle {m[2]}) at step {idx}: delivered to subscription(s) {sorted(seen)}; "
+                        f"subscriptions in force for that characteristic: {sorted(want)}" + (f" (started, unconfirmed: {sorted(may - want)})" if may - want else ""))
     # nothing left subscribed once everything has finished (notify / connect subscriptions released by the story)
     live = set()
     for oid, (sidx, op) in started.items():
@@ -614,6 +637,26 @@ def systematic(tier, rng):
     return stories
 
 
+def shared_characteristic_stories():
+    """two (three) notify subscriptions for one characteristic: the second fails / is stopped / is removed - the first goes on"""
+    out = []
+    for second_ends in ("gatt-error", "stop", "unsub", "timeout", "stays"):
+        st = [("op", 1, ("notify", A1, 1, 5)), ("feed", [("nr", A1, 1, 401)]), ("feed", [("nd", A1, 1, 402)]), ("op", 2, ("notify", A1, 1, 5))]
+        if second_ends == "gatt-error":
+            st += [("feed", [("ge", A1, 1, 403)])]
+        elif second_ends == "timeout":
+            st += [("t", 6)]
+        else:
+            st += [("feed", [("nr", A1, 1, 404)])]
+            if second_ends in ("stop", "unsub"):
+                st += [(second_ends, 2)]
+        st += [("feed", [("nd", A1, 1, 405)]), ("feed", [("nd", A1, 7, 406), ("nd", A2, 1, 407)]), ("t", 7), ("feed", [("nd", A1, 1, 408)]), ("unsub", 1)]
+        if second_ends == "stays":
+            st += [("feed", [("nd", A1, 1, 409)]), ("unsub", 2)]
+        out.append(expand_time(st))
+    return out
+
+
 def connect_stories():
     out = []
     for a, other in ((A1, A2), (A2, A1)):
@@ -676,7 +719,7 @@ def run(rep, tier, seed):
         raise RuntimeError("driver build failed: " + log[-2000:])
     load_consts()
     common.setup_impl_path()
-    stories = systematic(tier, rng) + connect_stories()
+    stories = systematic(tier, rng) + connect_stories() + shared_characteristic_stories()
     for _ in range(400 if tier == "quick" else 6000):
         stories.append(gen_story(rng))
     mout = common.run_driver(["ble " + " ".join(model_words(s)) for s in stories])
